@@ -73,6 +73,11 @@ func main() {
 func runSeq(p *SeqProfile, tier string, seed int64, scratch string, t0 time.Time) int {
 	r := &SeqRun{P: p, Tier: tier, Seed: seed, Scratch: scratch, hists: map[int]*History{}, Counts: map[string]int{},
 		Sigs: map[string]struct{}{}, KFHits: map[string]int{}}
+	if olds, _ := filepath.Glob(fmt.Sprintf("/verif/replays/%s-*.json", p.Prop)); len(olds) > 0 {
+		for _, o := range olds {
+			os.Remove(o)
+		}
+	}
 	// 1. design level
 	r.design()
 	// 2. spec -> code: TLC-generated histories
